@@ -28,9 +28,9 @@ CLAIMED = {
     },
     "C17": {
         "category": "exploration",
-        "text": "SPV sessions of the real client (get_filtered_txs, wait_for(HeadersMessage/Block), MerkleBlock.is_valid/proved_txs, HeadersMessage.is_valid, Block.check_pow/validate_merkle_root) against an honest or lying stub peer serving a synthetic chain: every validated proof yields only txids of the block (M1), honest proofs yield exactly the matched ids (M2), header verdicts equal the reference PoW/linkage (M3). Alterations are the property's catalogue injected in flight.",
+        "text": "SPV sessions of the real client (get_filtered_txs, wait_for(HeadersMessage/Block), MerkleBlock.is_valid/proved_txs, HeadersMessage.is_valid, Block.check_pow/validate_merkle_root) against an honest or lying stub peer serving a synthetic chain: every validated proof yields only txids of the block (M1), honest proofs yield exactly the matched ids (M2), header verdicts equal the reference PoW/linkage (M3), retargets the consensus formula (M4); a proof object that is validated, altered in place, validated again, repaired ... always answers for its current fields (M5). Alterations are the property's catalogue injected in flight.",
         "design_ref": "DESIGN.md 5.1, 6 (C17)",
-        "note": "Trusted: ref/merkle.py (BIP37 builder, consensus root), ref/p2p.py (SetCompact, PoW), stub peer's ground truth. merkle_root/bits/retarget equalities are pure and sampled through the served chain and the retarget / header_edits operations (incl. negative, zero and overflowing compact targets served by a Byzantine peer). One open known finding (a proof over the block's first interior level validates: leaf/interior ambiguity). BIP37 strictness beyond the statement (left-over hashes or flag bits) is not demanded. Trees of 1..8 leaves x all match subsets (thorough: 1..10) are enumerated, and blocks of 1000-5000 transactions with dense match sets go through the wire parser (hash and flag-byte counts across the one-byte compact-size boundary).",
+        "note": "Trusted: ref/merkle.py (BIP37 builder, consensus root), ref/p2p.py (SetCompact, PoW), stub peer's ground truth. merkle_root/bits/retarget equalities are pure and sampled through the served chain and the retarget / header_edits operations (incl. negative, zero and overflowing compact targets served by a Byzantine peer). One open known finding (a proof over the block's first interior level validates: leaf/interior ambiguity). BIP37 strictness beyond the statement (left-over hashes or flag bits) is not demanded. The proof-of-work verdict at hash == target (and target-1, target+1) is observed with buidl.block.hash256 replaced by a stub for that one call, because real SHA-256 cannot be steered there. Trees of 1..8 leaves x all match subsets (thorough: 1..10) are enumerated, and blocks of 1000-5000 transactions with dense match sets go through the wire parser (hash and flag-byte counts across the one-byte compact-size boundary).",
         "technique": "deterministic simulation of an SPV session against a Byzantine peer; ground-truth oracle from the peer's chain",
     },
 }
@@ -39,7 +39,7 @@ CLAIMED["C20"] = {
     "category": "exploration",
     "text": "Senders (real BCURMulti/BCURSingle encode) -> simulated camera channel with frame loss, duplication, rotation, reordering, corruption, cross-talk and relabelling -> naive and collecting receivers calling the real parse: whatever parse returns is bit-for-bit one sender's payload (A1/A2), a clean in-order delivery always reassembles for every length / chunk size / CBOR class (A3), and a looping sender is reassembled within two clean loops after faults stop (A4). Seeded search plus enumeration of every sequence of parts for part counts <= 4 and of every position x replacement character of sampled parts.",
     "design_ref": "DESIGN.md 5.7, 6 (C20)",
-    "note": "Trusted: CPython, binascii/hashlib, the simulator core; the collecting receiver is harness code. CBOR prefixes are checked for invertibility only. Senders may redraw the animation (repeated encode() on one object). A clean batch is evidence, not proof.",
+    "note": "Trusted: CPython, binascii/hashlib, the simulator core; the collecting receiver is harness code. CBOR prefixes are checked for invertibility only. Senders may redraw the animation (repeated encode() on one object or on a new object for the same payload), and the owner of a returned frame list may use it up (pop, reverse, overwrite) before the next encode(). The partition of the text into frames (labels, empty or over-long parts) is counted, not demanded: the statement promises reassembly. A clean batch is evidence, not proof.",
     "technique": "deterministic simulation of a lossy one-way frame channel with fault injection; ground-truth oracle on the reassembled payload",
 }
 CLAIMED["C15"] = {
